@@ -26,7 +26,7 @@ def targetOf (bits : Nat) : Nat :=
   if mant > 0x7FFFFF then 0 else (mant * 2 ^ expt) % 2 ^ 256
 
 /-- rust-bitcoin `Target::min_transition_threshold` (`self >> 2`) -/
-def minTransitionThreshold (t : Nat) : Nat := t / 16
+def minTransitionThreshold (t : Nat) : Nat := t / 4
 /-- rust-bitcoin `Target::max_transition_threshold_unchecked` (`self << 2` on a U256) -/
 def maxTransitionThresholdUnchecked (t : Nat) : Nat := (t * 4) % 2 ^ 256
 
